@@ -106,9 +106,27 @@ type Effect struct {
 	base  ssa.Value // nil: unknown base (whole array)
 	param int       // index in fn.Params when base is a parameter, else -1
 	all   bool
+	arrField int    // >0: the location is the memory block arrBase(base, arrField-1) of an array-typed field
+}
+
+// arrayFieldElem: if field i of struct type st is an array, its element type.
+func arrayFieldElem(st types.Type, i int) (types.Type, bool) {
+	u, ok := st.Underlying().(*types.Struct)
+	if !ok || i >= u.NumFields() {
+		return nil, false
+	}
+	at, ok := u.Field(i).Type().Underlying().(*types.Array)
+	if !ok {
+		return nil, false
+	}
+	return at.Elem(), true
 }
 
 func regFieldKey(so *Sorts, st types.Type, i int) string {
+	if et, ok := arrayFieldElem(st, i); ok {
+		es := so.sortOf(et)
+		return regKeyS(so, "M:"+es, arrSort(sInt, arrSort(sInt, es)))
+	}
 	k := fieldKey(st, i)
 	if _, ok := so.keySort[k]; !ok {
 		so.keySort[k] = arrSort(sInt, so.sortOf(st.Underlying().(*types.Struct).Field(i).Type()))
@@ -123,50 +141,61 @@ func regKeyS(so *Sorts, key, sort string) string {
 	return key
 }
 
-func (p *Prog) addrEffect(so *Sorts, addr ssa.Value) (key string, base ssa.Value, fresh bool, ok bool) {
+// addrEffect describes the heap location written through addr.
+// arrField > 0: the location lies in the memory block of array field #arrField-1 of object base.
+func (p *Prog) addrEffect(so *Sorts, addr ssa.Value) (key string, base ssa.Value, fresh bool, arrField int, ok bool) {
+	memKeyOf := func(et types.Type) string {
+		es := so.sortOf(et)
+		return regKeyS(so, "M:"+es, arrSort(sInt, arrSort(sInt, es)))
+	}
 	switch a := addr.(type) {
 	case *ssa.FieldAddr:
 		pt := a.X.Type().Underlying().(*types.Pointer).Elem()
 		switch a.X.(type) {
 		case *ssa.FieldAddr, *ssa.IndexAddr:
+			// field of a struct value nested in another location: the enclosing location is what changes
 			return p.addrEffect(so, a.X)
 		}
-		if al, isAlloc := a.X.(*ssa.Alloc); isAlloc {
-			_ = al
-			k := regFieldKey(so, pt, a.Field)
-			return k, a.X, true, true
+		_, isAlloc := a.X.(*ssa.Alloc)
+		if _, isArr := arrayFieldElem(pt, a.Field); isArr {
+			return regFieldKey(so, pt, a.Field), a.X, isAlloc, a.Field + 1, true
 		}
-		return regFieldKey(so, pt, a.Field), a.X, false, true
+		return regFieldKey(so, pt, a.Field), a.X, isAlloc, 0, true
 	case *ssa.IndexAddr:
 		switch xt := a.X.Type().Underlying().(type) {
 		case *types.Slice:
-			es := so.sortOf(xt.Elem())
-			return regKeyS(so, "M:"+es, arrSort(sInt, arrSort(sInt, es))), nil, false, true
+			return memKeyOf(xt.Elem()), nil, false, 0, true
 		case *types.Pointer:
 			switch a.X.(type) {
 			case *ssa.FieldAddr, *ssa.IndexAddr:
 				return p.addrEffect(so, a.X)
 			}
-			s := so.sortOf(xt.Elem())
+			at := xt.Elem().Underlying().(*types.Array)
 			_, isAlloc := a.X.(*ssa.Alloc)
-			return regKeyS(so, "C:"+s, arrSort(sInt, s)), a.X, isAlloc, true
+			return memKeyOf(at.Elem()), a.X, isAlloc, 0, true
 		}
 	case *ssa.Global:
-		return regKeyS(so, "G:"+a.Pkg.Pkg.Path()+"."+a.Name(), so.sortOf(a.Type().(*types.Pointer).Elem())), nil, false, true
+		return regKeyS(so, "G:"+a.Pkg.Pkg.Path()+"."+a.Name(), so.sortOf(a.Type().(*types.Pointer).Elem())), nil, false, 0, true
 	case *ssa.Alloc:
 		et := a.Type().(*types.Pointer).Elem()
 		if _, isStruct := et.Underlying().(*types.Struct); isStruct {
-			return "", a, true, false // whole-struct store to fresh object: caller expands
+			return "", a, true, 0, false // whole-struct store to fresh object: caller expands
 		}
-		return regKeyS(so, "C:"+so.sortOf(et), arrSort(sInt, so.sortOf(et))), a, true, true
+		if at, isArr := et.Underlying().(*types.Array); isArr {
+			return memKeyOf(at.Elem()), a, true, 0, true
+		}
+		return regKeyS(so, "C:"+so.sortOf(et), arrSort(sInt, so.sortOf(et))), a, true, 0, true
 	default:
 		if pt, isPtr := addr.Type().Underlying().(*types.Pointer); isPtr {
+			if at, isArr := pt.Elem().Underlying().(*types.Array); isArr {
+				return memKeyOf(at.Elem()), addr, false, 0, true
+			}
 			if _, isStruct := pt.Elem().Underlying().(*types.Struct); !isStruct {
-				return regKeyS(so, "C:"+so.sortOf(pt.Elem()), arrSort(sInt, so.sortOf(pt.Elem()))), addr, false, true
+				return regKeyS(so, "C:"+so.sortOf(pt.Elem()), arrSort(sInt, so.sortOf(pt.Elem()))), addr, false, 0, true
 			}
 		}
 	}
-	return "", nil, false, false
+	return "", nil, false, 0, false
 }
 
 func paramIndex(fn *ssa.Function, v ssa.Value) int {
@@ -186,7 +215,7 @@ func (p *Prog) effectsOfBlocks(so *Sorts, fn *ssa.Function, blocks []*ssa.BasicB
 		for _, ins := range b.Instrs {
 			switch x := ins.(type) {
 			case *ssa.Store:
-				key, base, fresh, ok := p.addrEffect(so, x.Addr)
+				key, base, fresh, arrField, ok := p.addrEffect(so, x.Addr)
 				if !ok {
 					if base != nil && fresh {
 						continue
@@ -195,7 +224,11 @@ func (p *Prog) effectsOfBlocks(so *Sorts, fn *ssa.Function, blocks []*ssa.BasicB
 					if pt, isPtr := x.Addr.Type().Underlying().(*types.Pointer); isPtr {
 						if st, isStruct := pt.Elem().Underlying().(*types.Struct); isStruct {
 							for i := 0; i < st.NumFields(); i++ {
-								addEff(Effect{key: regFieldKey(so, pt.Elem(), i), base: x.Addr, param: paramIndex(fn, x.Addr)})
+								af := 0
+								if _, isArr := arrayFieldElem(pt.Elem(), i); isArr {
+									af = i + 1
+								}
+								addEff(Effect{key: regFieldKey(so, pt.Elem(), i), base: x.Addr, param: paramIndex(fn, x.Addr), arrField: af})
 							}
 							continue
 						}
@@ -209,7 +242,7 @@ func (p *Prog) effectsOfBlocks(so *Sorts, fn *ssa.Function, blocks []*ssa.BasicB
 					addEff(Effect{key: key, base: nil, param: -2})
 					continue
 				}
-				addEff(Effect{key: key, base: base, param: paramIndex(fn, base)})
+				addEff(Effect{key: key, base: base, param: paramIndex(fn, base), arrField: arrField})
 			case *ssa.Next:
 				if x.IsString {
 					addEff(Effect{key: regKeyS(so, "IT:pos", arrSort(sInt, sInt)), base: x.Iter, param: -2})
@@ -327,7 +360,11 @@ func (p *Prog) contractEffects(so *Sorts, fn *ssa.Function, c *Contract) []Effec
 						if i < len(fn.Params) {
 							base = fn.Params[i]
 						}
-						out = append(out, Effect{key: regFieldKey(so, st, fi), base: base, param: i})
+						af := 0
+						if _, isArr := arrayFieldElem(st, fi); isArr {
+							af = fi + 1
+						}
+						out = append(out, Effect{key: regFieldKey(so, st, fi), base: base, param: i, arrField: af})
 						found = true
 					}
 				}
@@ -403,7 +440,7 @@ func mapEffect(caller *ssa.Function, e Effect, callee *ssa.Function, args []ssa.
 	}
 	if e.param >= 0 && e.param < len(args) {
 		a := args[e.param]
-		return Effect{key: e.key, base: a, param: paramIndex(caller, a)}
+		return Effect{key: e.key, base: a, param: paramIndex(caller, a), arrField: e.arrField}
 	}
 	return Effect{key: e.key, base: nil, param: -1}
 }
@@ -615,6 +652,9 @@ func (ex *Exec) applyEffects(h *Heap, effs []Effect, l *Loop, guard Term) *Heap 
 				whole = true
 				break
 			}
+			if e.arrField > 0 {
+				bt = arrBase(bt, e.arrField-1)
+			}
 			if !seen[bt.S] {
 				seen[bt.S] = true
 				bases = append(bases, bt)
@@ -654,6 +694,15 @@ func (ex *Exec) applyEffects(h *Heap, effs []Effect, l *Loop, guard Term) *Heap 
 	a := q.fresh("alloc", sInt)
 	q.assume(le(q.heapGet(h, allocKey), a))
 	nh.m[allocKey] = a
+	touchedGlobal := false
+	for k := range byKey {
+		if strings.HasPrefix(k, "G:") {
+			touchedGlobal = true
+		}
+	}
+	if (touchedGlobal || unknownKeys) && q.assumeGlobals != nil {
+		q.assumeGlobals(nh)
+	}
 	return nh
 }
 
